@@ -82,17 +82,44 @@ theorem checkProof_post {R : Rules} {cfg : Cfg} {fuel : Nat} {prf : List Item} {
     (∀ s, res.th = some s → Good R (fun g => g ∈ res.gaps) s) :=
   checkProof_post_gen h _ (uncomputed_are_gaps hco h)
 
-/-- `checked_extend` only ever appends to the theorem table and to the axiom report. -/
-theorem checkedExtend_prefix (R : List (String × Seq) → Rules) (fuel : Nat) :
+/-! ### `checked_extend` -/
+
+theorem lookupThm_upsert_self (name : String) (th : Seq) :
+    ∀ l, lookupThm (upsert name th l) name = some th := by
+  intro l
+  induction l with
+  | nil => simp [upsert, lookupThm]
+  | cons p l ih =>
+    obtain ⟨n, t⟩ := p
+    by_cases h : n = name
+    · simp [upsert, lookupThm, h]
+    · simp [upsert, lookupThm, h, ih]
+
+theorem lookupThm_upsert_ne (name : String) (th : Seq) (other : String) (hne : other ≠ name) :
+    ∀ l, lookupThm (upsert name th l) other = lookupThm l other := by
+  intro l
+  induction l with
+  | nil => simp [upsert, lookupThm, Ne.symm hne]
+  | cons p l ih =>
+    obtain ⟨n, t⟩ := p
+    by_cases h : n = name
+    · subst h
+      have : ¬ n = other := fun e => hne e.symm
+      simp [upsert, lookupThm, this]
+    · by_cases h2 : n = other
+      · subst h2; simp [upsert, lookupThm, h]
+      · simp [upsert, lookupThm, h, h2, ih]
+
+/-- `checked_extend` only ever appends to the axiom report. -/
+theorem checkedExtend_axioms_prefix (R : List (String × Seq) → Rules) (fuel : Nat) :
     ∀ (exts : List Ext) (st st' : ExtState) (err : Option Err),
-      checkedExtend R fuel st exts = (st', err) →
-      st.theorems <+: st'.theorems ∧ st.axioms <+: st'.axioms := by
+      checkedExtend R fuel st exts = (st', err) → st.axioms <+: st'.axioms := by
   intro exts
   induction exts with
   | nil =>
     intro st st' err h
     simp only [checkedExtend, Prod.mk.injEq] at h
-    rw [← h.1]; exact ⟨List.prefix_refl _, List.prefix_refl _⟩
+    rw [← h.1]; exact List.prefix_refl _
   | cons e rest ih =>
     intro st st' err h
     cases e with
@@ -101,17 +128,47 @@ theorem checkedExtend_prefix (R : List (String × Seq) → Rules) (fuel : Nat) :
       cases prf with
       | none =>
         simp only [checkedExtend] at h
-        have := ih _ _ _ h
-        exact ⟨(List.prefix_append _ _).trans this.1, (List.prefix_append _ _).trans this.2⟩
+        exact (List.prefix_append _ _).trans (ih _ _ _ h)
       | some p =>
         simp only [checkedExtend] at h
         split at h
-        · simp only [Prod.mk.injEq] at h; rw [← h.1]; exact ⟨List.prefix_refl _, List.prefix_refl _⟩
+        · simp only [Prod.mk.injEq] at h; rw [← h.1]; exact List.prefix_refl _
         · split at h
-          · simp only [Prod.mk.injEq] at h; rw [← h.1]; exact ⟨List.prefix_refl _, List.prefix_refl _⟩
+          · simp only [Prod.mk.injEq] at h; rw [← h.1]; exact List.prefix_refl _
           · split at h
-            · have := ih _ _ _ h
-              exact ⟨(List.prefix_append _ _).trans this.1, this.2⟩
-            · simp only [Prod.mk.injEq] at h; rw [← h.1]; exact ⟨List.prefix_refl _, List.prefix_refl _⟩
+            · exact ih (ExtState.mk (upsert name th st.theorems) st.axioms) st' err h
+            · simp only [Prod.mk.injEq] at h; rw [← h.1]; exact List.prefix_refl _
+
+/-- Processing `e :: rest` when `e` is installed is processing `rest` from the next state. -/
+theorem checkedExtend_append_ok (R : List (String × Seq) → Rules) (fuel : Nat) :
+    ∀ (pre post : List Ext) (st mid : ExtState),
+      checkedExtend R fuel st pre = (mid, none) →
+      checkedExtend R fuel st (pre ++ post) = checkedExtend R fuel mid post := by
+  intro pre
+  induction pre with
+  | nil =>
+    intro post st mid h
+    simp only [checkedExtend, Prod.mk.injEq] at h
+    rw [← h.1]; rfl
+  | cons e pre ih =>
+    intro post st mid h
+    cases e with
+    | other => simp only [checkedExtend, List.cons_append] at h ⊢; exact ih post _ _ h
+    | «theorem» name th prf =>
+      cases prf with
+      | none => simp only [checkedExtend, List.cons_append] at h ⊢; exact ih post _ _ h
+      | some p =>
+        simp only [checkedExtend, List.cons_append] at h ⊢
+        split at h
+        · simp at h
+        · rename_i res hres
+          split at h
+          · simp at h
+          · rename_i r hr
+            split at h
+            · rename_i hcp
+              simp only [hcp, if_true]
+              exact ih post _ _ h
+            · simp at h
 
 end Holpy.C02
